@@ -16,6 +16,7 @@ import (
 	"verif/internal/device"
 	"verif/internal/gen"
 	"verif/internal/harness"
+	"verif/internal/hostile"
 	"verif/internal/spec"
 	"verif/internal/srv"
 	"verif/internal/xport"
@@ -467,6 +468,29 @@ func genSeg(t *rapid.T, level string) segCase {
 	}
 	if level == "B" && rapid.IntRange(0, 2).Draw(t, "with_interloper") == 0 {
 		c.Interloper = rapid.IntRange(1, 11).Draw(t, "interloper")
+	}
+	if rapid.IntRange(0, 5).Draw(t, "foreign_token") == 0 {
+		// a write request whose payload begins with bytes that other protocols open with, and a cut exactly in front of them: a fragment
+		// of a valid request that, looked at on its own, resembles the start of a foreign stream
+		prev := 0
+		for i := range c.Requests {
+			r := &c.Requests[i]
+			off := -1
+			switch r.FC {
+			case 16:
+				off = 13
+			case 23:
+				off = 17
+			}
+			if off > 0 && len(r.Payload) >= 4 {
+				tok := rapid.SampledFrom(hostile.Tokens).Draw(t, "token")
+				if len(tok) <= len(r.Payload) {
+					copy(r.Payload, tok)
+					c.Cuts = append(c.Cuts, prev+off)
+				}
+			}
+			prev = p.ends[i]
+		}
 	}
 	if rapid.IntRange(0, 4).Draw(t, "with_garbage") == 0 {
 		g := gen.Payload(t, "garbage", rapid.IntRange(8, 40).Draw(t, "garbage_n"))
